@@ -358,6 +358,12 @@ fn stmt(rng: &mut Rng, a: &mut Asm, cfg: &StructCfg, depth: u32, budget: &mut i3
         24
     } else if rng.chance(1, 12) {
         25
+    } else if rng.chance(1, 25) {
+        26
+    } else if rng.chance(1, 14) {
+        27
+    } else if rng.chance(1, 16) {
+        28
     } else {
         choice
     };
@@ -708,6 +714,124 @@ fn stmt(rng: &mut Rng, a: &mut Asm, cfg: &StructCfg, depth: u32, budget: &mut i3
                 a.output(x);
             }
         }
+        26 => {
+            // a constant 2^k (folded at compile time) against the same power built at run time
+            // from a flag the optimiser cannot know: C - R must be zero in all bits
+            let p0 = k + cfg.scratch + 1; // constant
+            let p1 = p0 + 1; // scratch
+            let p2 = p0 + 2; // run-time value
+            let p3 = p0 + 3; // flag source
+            let kk = *rng.pick(&[7u32, 8, 15, 16, 31, 31, 32, 33, 47, 63]);
+            for c in [p0, p1, p2, p3] {
+                a.clear(c);
+            }
+            // flag = (input != 0), hidden behind control flow
+            a.input(p3);
+            a.while_(p3, |a| {
+                a.clear(p3);
+                a.add(p2, 1);
+            });
+            a.add(p0, 1);
+            for cell in [p0, p2] {
+                for _ in 0..kk / 2 {
+                    a.while_(cell, |a| {
+                        a.add(p1, 4);
+                        a.add(cell, -1);
+                    });
+                    a.while_(p1, |a| {
+                        a.add(cell, 1);
+                        a.add(p1, -1);
+                    });
+                }
+                if kk % 2 == 1 {
+                    a.while_(cell, |a| {
+                        a.add(p1, 2);
+                        a.add(cell, -1);
+                    });
+                    a.while_(p1, |a| {
+                        a.add(cell, 1);
+                        a.add(p1, -1);
+                    });
+                }
+            }
+            // p0 -= p2 ; print whether anything is left
+            a.while_(p2, |a| {
+                a.add(p0, -1);
+                a.add(p2, -1);
+            });
+            a.while_(p0, |a| {
+                a.add(p1, 1);
+                a.clear(p0);
+            });
+            a.output(p1);
+            a.clear(p1);
+        }
+        27 => {
+            // an `if` around a counted loop with output that keeps using values computed before the `if`
+            let (x, y) = two(rng);
+            let c = cell(rng);
+            let n = cell(rng);
+            let t = k + rng.range(0, cfg.scratch - 1);
+            if c != n && c != x && c != y && n != x && n != y {
+                a.add(n, rng.range(1, 3));
+                a.while_(c, |a| {
+                    a.while_(n, |a| {
+                        // y += x, x preserved
+                        a.while_(x, |a| {
+                            a.add(y, 1);
+                            a.add(t, 1);
+                            a.add(x, -1);
+                        });
+                        a.while_(t, |a| {
+                            a.add(x, 1);
+                            a.add(t, -1);
+                        });
+                        a.output(y);
+                        if rng.coin() {
+                            stmt(rng, a, cfg, depth + 2, budget);
+                        }
+                        a.add(n, -1);
+                    });
+                    a.clear(c);
+                });
+                a.output(x);
+                a.output(y);
+            }
+        }
+        28 => {
+            // two nested counted loops with output; the inner one keeps using a value that was
+            // computed before the outer one
+            let (x, y) = two(rng);
+            let m = cell(rng);
+            let n = cell(rng);
+            let t = k + rng.range(0, cfg.scratch - 1);
+            if m != n && m != x && m != y && n != x && n != y {
+                // make x a computed value, not just a load
+                a.add(x, rng.range(1, 3));
+                a.add(m, rng.range(1, 2));
+                a.while_(m, |a| {
+                    a.add(n, 2);
+                    a.while_(n, |a| {
+                        a.while_(x, |a| {
+                            a.add(y, 1);
+                            a.add(t, 1);
+                            a.add(x, -1);
+                        });
+                        a.while_(t, |a| {
+                            a.add(x, 1);
+                            a.add(t, -1);
+                        });
+                        a.output(y);
+                        a.add(n, -1);
+                    });
+                    if rng.coin() {
+                        a.output(x);
+                    }
+                    a.add(m, -1);
+                });
+                a.output(y);
+            }
+        }
         23 => {
             // a real loop whose body ends in an `if` that adjusts the loop's own condition cell
             let (c, f) = two(rng);
@@ -987,6 +1111,14 @@ pub fn roamer(rng: &mut Rng, big: bool) -> String {
                 a.raw(&">".repeat(stride as usize));
                 a.raw(&format!("[{}]", ">".repeat(stride as usize)));
                 a.raw("+.");
+            }
+            8 if rng.coin() => {
+                // use the current cell, scan away, clear the cell under the pointer, look around
+                a.raw("+++");
+                a.raw(*rng.pick(&["[->+>+<<]>>[-<<+>>]<<", "[->+<]>[-<+>]<", "[->>+<<]>>[-<<+>>]<<"][..]));
+                a.raw(*rng.pick(&["[>]", "[<]", ">[>]", "<[<]", ">>[>]", "[>>]"][..]));
+                a.raw("[-]");
+                a.raw(*rng.pick(&[".", "<.>", ">.<", "<.>>.<", "<<.>>.>."][..]));
             }
             9 if rng.coin() => {
                 // a trail of cells holding 256 (zero in their low byte on wide cells), then a scan over it
@@ -1439,6 +1571,10 @@ fn big_expression(rng: &mut Rng) -> String {
 }
 
 pub fn explosive(rng: &mut Rng) -> String {
+    explosive_w(rng, *rng.clone().pick(&[8u32, 16, 32, 64]))
+}
+
+pub fn explosive_w(rng: &mut Rng, width: u32) -> String {
     if rng.chance(1, 3) {
         return big_expression(rng);
     }
@@ -1462,7 +1598,20 @@ pub fn explosive(rng: &mut Rng) -> String {
             if y >= x {
                 y += 1;
             }
-            match rng.below(3) {
+            match rng.below(4) {
+                3 => {
+                    // x = x * 2^(width-1): coefficients at half the modulus
+                    for _ in 0..width - 1 {
+                        a.while_(x, |a| {
+                            a.add(t, 2);
+                            a.add(x, -1);
+                        });
+                        a.while_(t, |a| {
+                            a.add(x, 1);
+                            a.add(t, -1);
+                        });
+                    }
+                }
                 0 => {
                     // x = x * y (y preserved)
                     a.while_(x, |a| {
@@ -1585,7 +1734,7 @@ pub fn program(rng: &mut Rng, fam: Family, width: u32, corpus: &[String], big: b
         Family::Brackets => brackets(rng),
         Family::Idioms => idioms(rng),
         Family::Long => long_straight(rng),
-        Family::Explosive => explosive(rng),
+        Family::Explosive => explosive_w(rng, width),
         Family::Nested => deep_nesting(rng),
     };
     if rng.chance(1, 8) {
